@@ -12,6 +12,12 @@ reverts /repo. Writes /verif/seeded/<name>/{patch.diff,demo_test.go,meta.json}.
 import json, os, re, shutil, subprocess, sys, time
 
 ENV = dict(os.environ, GOFLAGS="-mod=mod", GOPROXY="off", GOSUMDB="off", GOTOOLCHAIN="local")
+# SEED_REPO / SEED_VERIF let a regression run work on private copies (a git worktree of /repo, a worktree of /verif
+# with its own bin/) so that it does not disturb, and is not disturbed by, work going on in /repo and /verif
+REPO = os.environ.get("SEED_REPO", "/repo")
+VERIF = os.environ.get("SEED_VERIF", "/verif")
+if REPO != "/repo":
+    ENV.update(VERIF_REPO=REPO, VERIF_DIR=VERIF)
 
 
 def sh(cmd, cwd=None, timeout=3600):
@@ -32,10 +38,10 @@ def main():
     demo_src = open(f"{src}/demo_test.go").read()
     tests = re.findall(r"^func (Test\w+)\(", demo_src, re.M)
     runpat = "^(" + "|".join(tests) + ")$"
-    wt = f"/tmp/sv/{name}"
+    wt = f"/tmp/sv/{os.path.basename(REPO)}-{name}"
     os.makedirs("/tmp/sv", exist_ok=True)
-    sh(f"git -C /repo worktree remove --force {wt}")
-    rc, out = sh(f"git -C /repo worktree add --detach {wt} HEAD")
+    sh(f"git -C {REPO} worktree remove --force {wt}")
+    rc, out = sh(f"git -C {REPO} worktree add --detach {wt} HEAD")
     assert rc == 0, out
     res = {"property": pid, "name": name, "tests_in_demo": tests}
     try:
@@ -59,29 +65,29 @@ def main():
         res["demo_fails_with_change"] = rc != 0
         res["demo_with_output_tail"] = out[-800:]
     finally:
-        sh(f"git -C /repo worktree remove --force {wt}")
+        sh(f"git -C {REPO} worktree remove --force {wt}")
     confirmed = res.get("demo_passes_without_change") and res.get("builds_with_change") and res.get("suite_passes_with_change") and res.get("demo_fails_with_change")
     res["confirmed"] = bool(confirmed)
     # run the checks against it
     res["checks"] = {}
-    rc, out = sh("git -C /repo status --porcelain")
-    assert out.strip() == "", "/repo is not clean: " + out
-    rc, out = sh(f"git -C /repo apply {src}/patch.diff")
+    rc, out = sh(f"git -C {REPO} status --porcelain")
+    assert out.strip() == "", "repo is not clean: " + out
+    rc, out = sh(f"git -C {REPO} apply {src}/patch.diff")
     assert rc == 0, out
     try:
         for c in checks:
             t0 = time.time()
-            rc, out = sh(f"/verif/bin/vcheck {c} --tier {tier}", cwd="/verif", timeout=7200)
+            rc, out = sh(f"{VERIF}/bin/vcheck {c} --tier {tier}", cwd=VERIF, timeout=7200)
             sigs = re.findall(r"^  signature: (.*)$", out, re.M)
             res["checks"][c] = {"exit": rc, "detected": rc == 1 and "VIOLATION property=" in out, "signatures": sigs[:8], "wall_s": round(time.time() - t0, 1), "tier": tier,
                                 "summary": [l for l in out.splitlines() if l.startswith(c + " tier=")][-1:] or out[-400:]}
     finally:
-        sh("git -C /repo checkout -- .")
-        sh("git -C /repo clean -fdq -- internal pkg cmd")
-    rc, out = sh("git -C /repo status --porcelain")
+        sh(f"git -C {REPO} checkout -- .")
+        sh(f"git -C {REPO} clean -fdq -- internal pkg cmd")
+    rc, out = sh(f"git -C {REPO} status --porcelain")
     assert out.strip() == "", "/repo not restored: " + out
-    sh("rm -f /verif/replay/*.json")
-    dst = f"/verif/seeded/{name}"
+    sh(f"rm -f {VERIF}/replay/*.json")
+    dst = f"{VERIF}/seeded/{name}"
     os.makedirs(dst, exist_ok=True)
     shutil.copy(f"{src}/patch.diff", f"{dst}/patch.diff")
     shutil.copy(f"{src}/demo_test.go", f"{dst}/demo_test.go")
